@@ -318,7 +318,7 @@ func c12qSources() []*influxql.Measurement {
 		{Name: "m", SystemIterator: "_series", IsTarget: true, IsTimeSorted: true},
 		{Name: "m", EngineType: config.COLUMNSTORE},
 		{Name: "m", IndexRelation: &influxql.IndexRelation{Rid: 3, Oids: []uint32{1, 4}, IndexNames: []string{"text", "field idx"},
-			IndexList: []*influxql.IndexList{{IList: []string{"a", "b c"}}, {IList: []string{"d"}}},
+			IndexList:    []*influxql.IndexList{{IList: []string{"a", "b c"}}, {IList: []string{"d"}}},
 			IndexOptions: []*influxql.IndexOptions{{Options: []*influxql.IndexOption{{Tokens: ", ;", Tokenizers: "standard", TimeClusterDuration: time.Hour}}}, nil}}},
 		{Name: "m", ObsOptions: &obs.ObsOptions{Enabled: true, BucketName: "b", Ak: "ak", Sk: "s k", Endpoint: "http://e:1", BasePath: "/p/q"}},
 	}
